@@ -1,3 +1,4 @@
+mod counts;
 mod hist;
 mod models;
 mod oracle;
